@@ -310,7 +310,7 @@ def export_functions(code: str) -> dict:
                             meta["values_init"] = pyast.unparse(st.value)
                         elif n == "shape":
                             meta["shape"] = pyast.unparse(st.value)
-                        elif n.startswith("_values_") and n[8:].isdigit():
+                        elif n.startswith("_values_") and n[8:].isdigit() and meta["jit"]:
                             body.append(["store", int(n[8:]), ("py", st.value)])
                         else:
                             body.append(["let", n, _names_read(st.value)])
